@@ -3,7 +3,7 @@
 cd /verif
 : > seeded/RESULTS.txt
 run() { ./seedrun.sh "$1" "$2" 2>&1 | grep -v WARNING >> seeded/RESULTS.txt; }
-for d in seeded/C*-m* seeded/C*-w2m* seeded/C*-w3m*; do
+for d in seeded/C*-m* seeded/C*-w2m* seeded/C*-w3m* seeded/C*-w4m*; do
   id=$(basename $d); prop=${id%%-*}
   run $id $prop
 done
@@ -25,3 +25,7 @@ run C06-w3m1 C12
 run C06-w3m3 C03
 run C18-w3m1 C17
 run C18-w3m1 C12
+run C08-w4m2 C12
+run C10-w2m3 C09
+run C06-w3m1 C09
+run C17-w4m3 C02
